@@ -123,7 +123,11 @@ impl Project {
         for sub in self.program.term.subs.values() {
             let tid_suffix = format!("_{}", sub.tid);
             let mut additional_blocks = Vec::new();
-            for block_tid in sub_to_blocks_map.get(&sub.tid).unwrap() {
+            // Iterate in sorted order, so that the order of the new blocks is deterministic.
+            let mut block_tids: Vec<&Tid> =
+                sub_to_blocks_map.get(&sub.tid).unwrap().iter().collect();
+            block_tids.sort();
+            for block_tid in block_tids {
                 if tid_to_sub_map.get(block_tid) != Some(&sub.tid) {
                     let block = block_tid_to_block_map
                         .get(block_tid)
